@@ -2202,6 +2202,10 @@ func (w *World) eventCall(rec *EventRec, f func()) {
 func (w *World) probe() {
 	pr := &ProbeRec{Code: CodeNil}
 	w.mu.Lock()
+	// events whose trigger was not reached by the workload itself are off now (the probe's own frames must not trigger them)
+	for i := range w.eventsDone {
+		w.eventsDone[i] = true
+	}
 	idx := len(w.rpcs)
 	spec := &RPC{Shape: "unary", Req: []int{3}, Resp: []int{5}, Role: "probe"}
 	r := &rpcState{idx: idx, spec: spec}
